@@ -12,7 +12,9 @@
 //!   x  = the swept argument (divisor for gold), n = second operand (dividend for gold, second factor for fixmul),
 //!   w  = caller-supplied initial approximation (newton / isqrt / gold), cart = cartesian product n (major) x x (minor)
 //! record: the job + out = ok|err|panic, msg, y (plaintext outputs), yc (compiled outputs, when requested),
-//!   cout = ok|err|panic for the compiled run.
+//!   cout = ok|err|panic for the compiled run; piecewise-linear operations: al, be = the slope / offset tables
+//!   (one entry per segment) read from the Constant nodes of the instantiated graph.
+//! Operands (x, n, w) are JSON integers (below 2^31 in magnitude).  Outputs and tables:
 //! enc = "int": JSON integers, clamped to +-2^30 (every judged domain keeps the true values far below);
 //! enc = "limbs": 16 little-endian base-256 limbs of the 128-bit two's complement sign extension.
 use cc_conform::export::st_from;
